@@ -254,7 +254,17 @@ impl Parser {
         let mut name: Option<(Ident, Span)> = None;
         let mut body: Option<Block> = None;
 
-        for next in children {
+        // the step is evaluated on every iteration, inside the loop, where the counter exists: bind the
+        // counter before the step is read, so that the type checker and the capture analysis see the
+        // same variable as the run time does
+        let mut remaining: Vec<Node> = children.collect();
+        remaining.sort_by_key(|node| match node.as_rule() {
+            Rule::number_loop_bind_name => 0,
+            Rule::number_loop_step => 1,
+            _ => 2,
+        });
+
+        for next in remaining {
             match next.as_rule() {
                 Rule::number_loop_step => {
                     let val = next.children().single().unwrap();
